@@ -156,7 +156,18 @@ pub fn gen_case(prop: &str, tier: Tier, seed: u64, idx: u64) -> Option<Case> {
             if r.chance(1, 40) {
                 cfg.video = false;
             }
-            hist_case(gen_history_for(r, &o, cfg))
+            if r.chance(1, 25) {
+                // dimensions the sample entry cannot hold: every finish is refused, nothing else changes
+                if r.chance(1, 2) {
+                    cfg.width = *r.pick(&[65_536u32, 70_000, 100_000]);
+                } else {
+                    cfg.height = *r.pick(&[65_536u32, 70_000, 100_000]);
+                }
+            }
+            crate::gen::frames::set_vp9_compact_pct(10);
+            let h = gen_history_for(r, &o, cfg);
+            crate::gen::frames::set_vp9_compact_pct(0);
+            hist_case(h)
         }
         "C05" => {
             if r.chance(1, 5) {
@@ -196,6 +207,12 @@ pub fn gen_case(prop: &str, tier: Tier, seed: u64, idx: u64) -> Option<Case> {
             if cfg.audio_effective().is_none() {
                 cfg.audio = Some(AudioCfg { kind: 1, rate: 48_000, channels: 2 });
             }
+            if r.chance(1, 25) {
+                // high-resolution audio rates (beyond what the 16.16 sample-entry field holds)
+                if let Some(a) = cfg.audio.as_mut() {
+                    a.rate = *r.pick(&[88_200u32, 96_000, 176_400, 192_000]);
+                }
+            }
             hist_case(gen_history_for(r, &o, cfg))
         }
         "C10" | "C11" => {
@@ -214,7 +231,7 @@ pub fn gen_case(prop: &str, tier: Tier, seed: u64, idx: u64) -> Option<Case> {
 fn mon_c07_case(r: &mut Rng) -> Case {
     use crate::gen::frames::*;
     if r.chance(1, 4) {
-        let (mut h, side) = gen_frag_history(r, &FragOpts { max_ops: 3, ..Default::default() });
+        let (mut h, side) = gen_frag_history(r, &FragOpts { max_ops: 3, start_code_sets_pct: 5, ..Default::default() });
         h.ops = vec![FOp::Init];
         return Case::Frag { h, side: Side { av1: side, vp9: None, op: 0 } };
     }
@@ -267,6 +284,36 @@ fn mon_c07_case(r: &mut Rng) -> Case {
             }
             d.extend_from_slice(&[0, 0, 1]);
             d.extend(if two { vec![19 << 1, 1, 0xaa, 0xbb] } else { vec![0x65, 0x88, 0x84] });
+            d
+        }
+        c if r.chance(1, 500) => {
+            // a first keyframe of more than a mebibyte whose parameter sets come late: behind a
+            // huge SEI / behind the slice, one of them possibly straddling the 1 MiB offset
+            let two = c == H265;
+            let types: &[u8] = if two { &[32, 33, 34] } else { &[7, 8] };
+            let mk = |r: &mut Rng, t: u8, n: usize| -> Vec<u8> {
+                let mut v = if two { vec![t << 1, 1] } else { vec![0x60 | t] };
+                v.extend(r.bytes(n).into_iter().map(|b| b | 4));
+                v
+            };
+            let n = (1usize << 20) - r.range(0, 60) as usize + if r.chance(1, 3) { 200 } else { 0 };
+            let mut d = Vec::new();
+            let slice_first = r.chance(1, 2);
+            d.extend_from_slice(&[0, 0, 0, 1]);
+            if slice_first {
+                d.extend(mk(r, if two { 19 } else { 5 }, n));
+            } else {
+                d.extend(mk(r, if two { 39 } else { 6 }, n));
+            }
+            for &t in types {
+                let n = r.range(4, 30) as usize;
+                d.extend_from_slice(&[0, 0, 1]);
+                d.extend(mk(r, t, n));
+            }
+            if !slice_first {
+                d.extend_from_slice(&[0, 0, 1]);
+                d.extend(if two { vec![19 << 1, 1, 0xaa, 0xbb] } else { vec![0x65, 0x88, 0x84] });
+            }
             d
         }
         c => video_frame(r, c, FrameKind::KeyCfg, body, true),
@@ -526,8 +573,22 @@ pub fn eval_case(prop: &str, case: &Case, obs: &mut Obs) -> Vec<Violation> {
             hf.cfg.fast_start = Some(true);
             let mut hs = h.clone();
             hs.cfg.fast_start = Some(false);
-            let (e1, s1) = run(&hf, &ExecOpts::default());
-            let (e2, s2) = run(&hs, &ExecOpts::default());
+            // 1 recording in 10: both layouts go to a sink that takes fewer bytes than offered and
+            // reports Interrupted now and then (any W: Write may)
+            let hv = h.hash();
+            let short = hv % 10 == 0;
+            if short {
+                obs.count("pairs_with_short_writing_sink", 1);
+            }
+            let go = |hh: &History| {
+                if short {
+                    crate::exec::run_fault(hh, &ExecOpts::default(), crate::sink::Fault::Schedule { seed: hv, max_chunk: 1 + ((hv >> 8) % 97) as usize, interrupt_pct: 10 })
+                } else {
+                    run(hh, &ExecOpts::default())
+                }
+            };
+            let (e1, s1) = go(&hf);
+            let (e2, s2) = go(&hs);
             if e1.any_panic() || e2.any_panic() {
                 obs.inconclusive += 1;
                 return vec![];
